@@ -11,14 +11,14 @@ seams.boot()
 from bubus.helpers import retry  # noqa: E402
 
 LEVEL = 'model_checking'
-RULE = ('retries in {0,1,2,3} x wait in {0, 0.5} x backoff_factor in {1, 2} x timeout 1 s x retry_on in {None, (Listed,), (Listed, TimeoutError)}; at every attempt the wrapped function asks '
-        'the explorer for its outcome in {ok, Listed error, Unlisted error, overrun (sleeps past the timeout), caller cancelled during the attempt, Listed error then caller cancelled during the '
+RULE = ('retries in {0,1,2,3} x wait in {0, 0.5} x backoff_factor in {1, 2} x timeout 1 s x retry_on in {None, (), (Listed,), (Listed, TimeoutError)}; at every attempt the wrapped function asks '
+        'the explorer for its outcome in {ok, slow ok (0.7 x timeout), Listed error, Unlisted error, overrun (sleeps past the timeout), caller cancelled during the attempt, Listed error then caller cancelled during the '
         'back-off}: these are free choices, so EVERY outcome sequence is enumerated. Compared with an independent reference of the documented semantics: number and virtual start times of calls, '
         'return value / identity of the raised exception, cancellation never retried or swallowed. non-trivial = at least two attempts or a cancellation; distinct = distinct outcome sequences per configuration')
 ASSUMPTIONS = ['an overrun when retry_on is given without TimeoutError may either propagate at once (unlisted exception) or be retried (failed attempt): the statement allows both readings',
                'virtual time: the function body itself takes no time except where it sleeps']
 DISTINCT_BY_SCENARIO = True
-OUTCOMES = ['ok', 'listed', 'unlisted', 'overrun', 'cancel_attempt', 'cancel_backoff']
+OUTCOMES = ['ok', 'listed', 'unlisted', 'overrun', 'cancel_attempt', 'cancel_backoff', 'slow_ok']
 
 
 class Listed(Exception):
@@ -29,7 +29,7 @@ class Unlisted(Exception):
     pass
 
 
-RETRY_ON = {'none': None, 'listed': (Listed,), 'listed+timeout': (Listed, TimeoutError)}
+RETRY_ON = {'none': None, 'listed': (Listed,), 'listed+timeout': (Listed, TimeoutError), 'empty': ()}
 
 
 class RetryWorld:
@@ -60,6 +60,9 @@ class RetryWorld:
             w.outcomes.append(o)
             w.rec('call', k, o)
             if o == 'ok':
+                return ('value', k)
+            if o == 'slow_ok':
+                await asyncio.sleep(p['timeout'] * 0.7)  # slow, but within the per-attempt timeout
                 return ('value', k)
             if o == 'listed':
                 ex = Listed(f'listed {k}')
@@ -123,7 +126,7 @@ def make(spec, loop):
 
 def families(tier):
     out = []
-    for r, w, bf, ro in itertools.product((0, 1, 2, 3), (0, 0.5), (1, 2), ('none', 'listed', 'listed+timeout')):
+    for r, w, bf, ro in itertools.product((0, 1, 2, 3), (0, 0.5), (1, 2), ('none', 'listed', 'listed+timeout', 'empty')):
         if tier != 'thorough' and r == 3 and bf == 1 and w == 0:
             continue
         out.append(dict(prop='C19', family='c19.retry', id=f'c19/r{r}-w{w}-b{bf}-{ro}', cfg=dict(bound=0, cap=200000, free=('outcome',), busy=False, horizon=60.0),
@@ -147,12 +150,12 @@ def reference(p, outcomes):
         o = outcomes[k]
         last = k >= p['retries']
         wait = p['wait'] * (p['bf'] ** k)
-        if o == 'ok':
+        if o in ('ok', 'slow_ok'):
             return (k + 1, starts, ('returned', ('value', k)))
         if o == 'cancel_attempt':
             return (k + 1, starts, ('cancelled', None))
         if o in ('listed', 'cancel_backoff'):
-            if last:
+            if last or p['retry_on'] == 'empty':  # an empty retry_on lists nothing: every exception propagates at once
                 return (k + 1, starts, ('raised', ('listed', k)))
             if o == 'cancel_backoff' and wait > 0:
                 return (k + 1, starts, ('cancelled', None))
